@@ -12,6 +12,7 @@ from hxv.ref import resample as rr
 from hxv.runner import Shard
 
 PROP = "C18"
+CASE_TIMEOUT = 2.0
 RULE = (
     "case = (POSIX TZ rule string incl. half-hour/45-minute offsets and DST zones, timeframe S..D, stream whose naive "
     "timestamps lie on/around the zone's transition days incl. non-existent and repeated local times, append chunks); "
